@@ -14,6 +14,7 @@ from vlib.core import HarnessError, SubCheck, Violation
 
 from pycoin.ecdsa.Curve import Curve
 from pycoin.ecdsa.Generator import Generator
+from pycoin.ecdsa.Point import Point as PycoinPoint
 from pycoin.ecdsa.encrypt import generate_shared_public_key
 
 PROPERTY = "C02"
@@ -89,6 +90,10 @@ def pyc_sub(P, Q, Qref, where):
 
 
 def expect(got, want, c, bucket, what):
+    if not isinstance(got, PycoinPoint):
+        # the result of a group operation is a point of the group: it can be added to, negated, multiplied again
+        _bad("closure:result-is-not-a-Point", "%s returned a %s (%r), not a Point object: using it in a further operation is not "
+             "group arithmetic" % (what, type(got).__name__, got))
     g = to_ref(got)
     if g is not None and not (isinstance(g[0], int) and isinstance(g[1], int) and c.on_curve(g)):
         _bad(bucket + ":off-curve", "%s = %r is not a reduced point of %s" % (what, tuple(got), c.name))
